@@ -254,6 +254,21 @@ def handleValidate (j : Json) : OpOut :=
       model := Json.mkObj [("failedChecks", toJson idxs)] }
   | .error e => { diffs := ["bad-case:" ++ e] }
 
+/-- `startup`: the real binary on a configuration file with several node groups: it must refuse the file unless every
+    entry passes validation. -/
+def handleStartup (j : Json) : OpOut :=
+  match j.getObjValAs? (List Gen.RawCfg) "cfgs" with
+  | .ok cs =>
+    let obs := (j.getObjVal? "obs").toOption.getD Json.null
+    let oAcc : Bool := getD obs "accepted" false
+    let mAcc := cs.all Gen.validate
+    let badOnes := (cs.filter (fun c => !Gen.validate c)).map (·.name)
+    { diffs := if mAcc == oAcc then [] else ["startup"],
+      mon := if oAcc && !mAcc then ["C16:start-up-accepted-a-file-with-entries-that-fail-validation:" ++ toString badOnes] else [],
+      tag := if mAcc then "startup:accepted" else "startup:refused",
+      model := Json.mkObj [("accepted", toJson mAcc), ("failing", toJson badOnes)] }
+  | .error e => { diffs := ["bad-case:" ++ e] }
+
 def handleDecode (j : Json) : OpOut :=
   let key : String := getD j "key" ""
   let aws : Bool := getD j "aws" false
